@@ -5,38 +5,29 @@ From Coq Require Import List NArith Bool Arith.
 Import ListNotations.
 From PV Require Import Regex Base LexTables NodeModel ParserBase ParserDecl ParserMain Api CrashExamples LexerProofs.
 
-(* outcome of the whole-pipeline model on a text, coordinates erased, token counter dropped *)
-Definition outcome_str (text: str) : str :=
-  match run_parse text (s2l "f.c") with
-  | Ok (ast, _) => s2l "OK|" ++ show_ast (N.to_nat 1000) false ast
-  | Err l m => s2l "E|" ++ show_loc l ++ s2l ": " ++ m
-  | Crash k => s2l "C|" ++ crash_name k
-  | OutOfFuel => s2l "R"
-  end.
+(* a stray } is a located ParseError (was an AssertionError before the fix) *)
+Theorem C06_stray_rbrace :
+  outcome_str (s2l "}") = s2l "E|f.c: Unmatched '}'".
+Proof. exact ex_C06_stray_rbrace. Qed.
+Print Assumptions C06_stray_rbrace.
 
-(* witness: a stray } escapes as AssertionError (scope pop on an empty stack) *)
-Theorem C06_stray_rbrace_refuted :
-  outcome_str (s2l "}") = s2l "C|AssertionError".
-Proof. exact C06_stray_rbrace_refuted. Qed.
-Print Assumptions C06_stray_rbrace_refuted.
+(* two type specifiers where the last is not a plain name: ParseError (was AttributeError) *)
+Theorem C06_int_struct :
+  outcome_str (s2l "int struct T;") = s2l "E|f.c:1:1: Invalid declaration".
+Proof. exact ex_C06_int_struct. Qed.
+Print Assumptions C06_int_struct.
 
-(* witness: AttributeError (specifier inspection assumes IdentifierType) *)
-Theorem C06_int_struct_refuted :
-  outcome_str (s2l "int struct T;") = s2l "C|AttributeError".
-Proof. exact C06_int_struct_refuted. Qed.
-Print Assumptions C06_int_struct_refuted.
+(* a multi-character constant made of suffix letters is an int constant (was ValueError) *)
+Theorem C06_multichar :
+  outcome_str (s2l "int x = 'uu';") = s2l "OK|(FileAST [(Decl 'x' [] [] [] [] (TypeDecl 'x' [] None (IdentifierType ['int'])) (Constant 'int' ""'uu'"") None)])".
+Proof. exact ex_C06_multichar. Qed.
+Print Assumptions C06_multichar.
 
-(* witness: ValueError from the integer-suffix counter applied to a multi-character constant *)
-Theorem C06_multichar_refuted :
-  outcome_str (s2l "int x = 'uu';") = s2l "C|ValueError".
-Proof. exact C06_multichar_refuted. Qed.
-Print Assumptions C06_multichar_refuted.
-
-(* witness: a ParseError whose message does not start with a source location *)
-Theorem C06_unlocated_refuted :
-  outcome_str (s2l "const;") = s2l "E|?: Invalid declaration".
-Proof. exact C06_unlocated_refuted. Qed.
-Print Assumptions C06_unlocated_refuted.
+(* the message starts with a source location (was '?: ...') *)
+Theorem C06_located :
+  outcome_str (s2l "const;") = s2l "E|f.c: Invalid declaration".
+Proof. exact ex_C06_located. Qed.
+Print Assumptions C06_located.
 
 (* termination of the lexing half: tokenising any text finishes within |text|+1 iterations *)
 Theorem C06_lex_terminates : forall text file,
